@@ -3,6 +3,8 @@ open SSVerif.Jsgf
 #print axioms C05_run_iff_der
 #print axioms C05_explore_sound
 #print axioms C05_table_represents
-#print axioms C05_desugar_preserves_partial
+#print axioms C05_desugar_preserves
+#print axioms C05_compiled_language
 #print axioms C05_comparison_decides
+#print axioms C05_expand_refuses_partial
 #print axioms C05_weights_normalised
